@@ -472,6 +472,23 @@ macro_rules! run_hues { ($out:expr, $rng:expr, $deep:expr, $t:ty) => {{
                 Err(_) => out.check(false, &format!("no-panic-on-ordered-ends:{}", tag), || format!("{:?} {:?}", a, b)),
             }
         }
+        // the hue is uniform along the arc (support for the volume clause: the cone/bicone/cylinder samplers take their hue from here),
+        // in particular for arcs of a whole number of turns given inclusively: 12 bins, alarm beyond ~12 sigma of chi2 (11 d.o.f.)
+        for (a, b, incl) in [(0.0, 360.0, true), (-180.0, 180.0, true), (90.0, 450.0, true), (0.0, 360.0, false), (350.0, 370.0, false), (10.0, 200.0, true), (-30.0, -10.0, false)] {
+            let mut r = real_rng(7, rng.next());
+            let (at, bt) = (a as T, b as T);
+            let res = catch_unwind(AssertUnwindSafe(|| { let s = if incl { Uniform::new_inclusive(<$h>::from(at), <$h>::from(bt)) } else { Uniform::new(<$h>::from(at), <$h>::from(bt)) };
+                (0..6000).map(|_| s.sample(&mut r).into_raw_degrees().to64()).collect::<Vec<f64>>() }));
+            if let Ok(v) = res {
+                let len: f64 = b - a;
+                let mut bins = [0u32; 12];
+                for h in &v { let t = (h - a).rem_euclid(360.0) / len; let k = ((t * 12.0) as usize).min(11); bins[k] += 1; }
+                let exp = v.len() as f64 / 12.0;
+                let chi: f64 = bins.iter().map(|&c| (c as f64 - exp).powi(2) / exp).sum();
+                out.maxi(&format!("hue-arc-chi2:{}", T::TAG), chi);
+                out.check(chi < 70.0, &format!("support-hue-arc-bins-uniform:{}", tag), || format!("{} {}..{}{}: chi2 = {} bins {:?}", if incl { "new_inclusive" } else { "new" }, a, if incl { "=" } else { "" }, b, chi, bins));
+            }
+        }
         let mut r = real_rng(0, rng.next());
         for _ in 0..2000 { let h: $h = r.gen(); let d = h.into_raw_degrees().to64(); out.check(0.0 <= d && d <= 360.0, &format!("standard-hue-in-circle:{}", tag), || format!("hue {}", d)); }
     }} }
